@@ -333,6 +333,10 @@ func (mq *MessageQueue) scrubResponseStreams(responseStreams map[graphsync.Reque
 		if err != nil {
 			log.Error(err)
 		}
+		if verifhook.Enabled {
+			// whoever waited for this memory is runnable now
+			verifhook.Yield("messagequeue.afterRelease", string(mq.p), mq.network)
+		}
 	}
 }
 
